@@ -39,7 +39,7 @@ func TestC09(t *testing.T) {
 	defer r.Finish(t)
 	r.Assume("the map model's getIfChanged is the meaning of the property; for the FileClient the 'service' is the static document generated from the model's active set (non-empty values only)")
 	dir := evid.TempDir(t)
-	nHist := r.N(400, 8000)
+	nHist := r.N(400, 4000)
 	cfg := ops.GenCfg{
 		Names:   []string{"a", "a", "b"},
 		Values:  [][]byte{[]byte("one"), []byte("two"), []byte("three")},
